@@ -207,9 +207,9 @@ def run(chk):
     quick = chk.tier == 'quick'
     import time as _t
     PART_WALL['audit'] = _t.time() - chk.t0
-    for name, part in (('frame', lambda: _frame_part(chk, 800 if quick else 6000)),
-                       ('pipeip', lambda: _pipe_part(chk, 80 if quick else 1200)),
-                       ('sock+pipe', lambda: _sock_part(chk, 48 if quick else 480, 12 if quick else 100))):
+    for name, part in (('frame', lambda: _frame_part(chk, 1000 if quick else 6000)),
+                       ('pipeip', lambda: _pipe_part(chk, 100 if quick else 1200)),
+                       ('sock+pipe', lambda: _sock_part(chk, 60 if quick else 480, 14 if quick else 100))):
         t1 = _t.time()
         try:
             part()
